@@ -721,9 +721,14 @@ type extraFault struct {
 	signerAt   int // signer call index (-1: none)
 	signerPan  bool
 	stubPanic  string
+	// overlap: the simulated agent holds its answer to request gateAt until gate is closed; reached is called when the
+	// request has arrived (another request of the same process is served meanwhile)
+	gateAt  int
+	gate    chan struct{}
+	reached func()
 }
 
-func noExtra() extraFault { return extraFault{agentAt: -1, signerAt: -1} }
+func noExtra() extraFault { return extraFault{agentAt: -1, signerAt: -1, gateAt: -1} }
 
 func (w *world) doRun(run *GRun, extra extraFault) *runObs {
 	ob := &runObs{handlers: run.Handlers}
@@ -768,6 +773,10 @@ func (w *world) doRun(run *GRun, extra extraFault) *runObs {
 	icpt := w.intercept(run)
 	var lastSign *signObs
 	peer.OnRequest = func(idx int, kind string, req []byte) {
+		if extra.gate != nil && idx == extra.gateAt {
+			extra.reached()
+			<-extra.gate
+		}
 		ob.reqKinds = append(ob.reqKinds, kind)
 		ob.agentReqs++
 		if kind == "add" {
